@@ -44,6 +44,8 @@ def configs(tier):
                 out.append({'step': 'fit_real', 'method': method, 'rows': rows, 'n': n, 'centre': centre})
         for hist in ('fit_edit_fit', 'load_fit', 'fitA_fitB') + (('fit_recompute_fit',) if method == 'cycles' else ()):
             out.append({'step': 'history', 'hist': hist, 'method': method, 'rows': 2, 'n': 6})
+        # same with the default (empty) burst options: the object's own {} must not collect state either
+        out.append({'step': 'history', 'hist': 'fit_edit_fit', 'method': method, 'rows': 2, 'n': 6, 'bk': 'default'})
     # the object must forward find_extrema_kwargs exactly as the functional API takes them (real cyclepoint search)
     for fek in ('n_seconds', 'boundary_only', 'n_cycles_nopad'):
         out.append({'step': 'fit_fek', 'fek': fek, 'n': 6 if fek != 'n_cycles_nopad' else 8})
@@ -225,11 +227,12 @@ def run(ctx, cfg):
         tables = [(x, tabA)]
         pipe.Stubs(ctx, 0, relate=('same',))
         thr, exp = settings(ctx, method, 1 if step == 'fit_real' else 0, True)
-        bk = {'amp_threshes': (1, 2)} if method == 'amp' else {}
+        bk = {'amp_threshes': (1, 2)} if method == 'amp' and cfg.get('bk') != 'default' else {}
         sig = np.array(list(x), dtype=float)
         sh, saved = install_cut_cyclepoints(ctx, rows, n, tables)
         try:
-            bm = fit.Bycycle(center_extrema=centre, burst_method=method, burst_kwargs=dict(bk), thresholds=dict(thr))
+            bm = fit.Bycycle(center_extrema=centre, burst_method=method,
+                             burst_kwargs=None if cfg.get('bk') == 'default' else dict(bk), thresholds=dict(thr))
             if step == 'fit_real':
                 bm.fit(sig, 500.0, (8.0, 12.0))
                 ref = ff.compute_features(sig, 500.0, (8.0, 12.0), center_extrema=centre, burst_method=method,
